@@ -147,6 +147,7 @@ class Engine:
         self.world.rec('notify', programs.label(proc), event, programs.freeze(args))
         for index in self.pending_on.pop((event, count), []):
             self.fire(index, 'listener')
+        self.world.site(proc, f'listener:{event}')
 
     # -- actions -----------------------------------------------------------------------------
     def control_context(self):
